@@ -480,3 +480,32 @@ package skiplist
 //@ func verifYield
 //@ trusted test-only scheduling hook (no-op without the verif tag; with it, calls a test-installed function that only blocks)
 //@ pure-call
+
+// ---------------------------------------------------------------------------
+// C18: merge iterator. Re-positioning must start from an empty cursor heap: while the inputs are (re)seeked the heap
+// holds at most one entry per input processed so far. (container/heap is not modelled: the entries' order and the
+// pop/push steps of Next are outside this contract.)
+// ---------------------------------------------------------------------------
+
+//@ pure mitOK(mit *MergeIterator) bool = mit != nil && ptr(mit.iters) + 8 * len(mit.iters) <= brk() &&
+//@     (forall k int {mit.iters[k]} :: 0 <= k && k < len(mit.iters) ==> mit.iters[k] != nil && mit.iters[k] < brk() && wfChain(mit.iters[k].s) && !mit.iters[k].deleted &&
+//@        mit.iters[k].buf != nil && len(mit.iters[k].buf.preds) >= 1 && len(mit.iters[k].buf.succs) >= 1)
+
+//@ func (*MergeIterator).SeekFirst
+//@ props C18
+//@ requires mitOK(mit)
+//@ modifies *
+//@ call (*skiplist.MergeIterator).Next havoc *
+//@ loop 1 invariant[one-entry-per-input] -1 <= rangeindex && len(mit.h) <= rangeindex + 1
+//@ loop 1 invariant[inputs] mitOK(mit)
+//@ nopanic
+
+//@ func (*MergeIterator).Seek
+//@ props C18
+//@ requires mitOK(mit) && itm != MinItem && itm != MaxItem && (forall k int {mit.iters[k]} :: 0 <= k && k < len(mit.iters) ==> monotone(mit.iters[k].s, mit.iters[k].cmp, itm))
+//@ use sl-globals
+//@ modifies *
+//@ call (*skiplist.MergeIterator).Next havoc *
+//@ loop 1 invariant[one-entry-per-input] -1 <= rangeindex && len(mit.h) <= rangeindex + 1
+//@ loop 1 invariant[inputs] mitOK(mit) && (forall k int {mit.iters[k]} :: 0 <= k && k < len(mit.iters) ==> monotone(mit.iters[k].s, mit.iters[k].cmp, itm))
+//@ nopanic
